@@ -1,9 +1,118 @@
 (* Proofs for C12 (equality and ordering of values). *)
-From Coq Require Import String List ZArith Bool NArith Lia.
-From Flocq Require Import IEEE754.Binary IEEE754.Bits.
+From Coq Require Import String List ZArith Bool NArith Lia Reals.
+From Flocq Require Import Core.Core IEEE754.BinarySingleNaN IEEE754.Binary IEEE754.Bits.
 From RV Require Import Base.F64 Base.Text Model.Units Model.Numeric Model.ValueEq.
 Import ListNotations.
 Local Open Scope Z_scope.
+
+(* ---- Number::eq is symmetric (fix 5445670): all pairs of doubles ---- *)
+Definition nan_eqv (x y : f64) : Prop := x = y \/ (f_is_nan x = true /\ f_is_nan y = true).
+
+Lemma fabs_fsub_finite : forall a b, f_is_finite a = true -> f_is_finite b = true ->
+  fabs (fsub a b) = fabs (fsub b a).
+Proof.
+  intros a b Ha Hb. unfold fabs, fsub, b64_abs, b64_minus, f_is_finite in *.
+  match goal with |- context [Bminus 53 1024 ?p ?q _ _ a b] =>
+    pose proof (Bminus_correct 53 1024 p q binop_nan_pl64 mode_NE a b Ha Hb) as H1;
+    pose proof (Bminus_correct 53 1024 p q binop_nan_pl64 mode_NE b a Hb Ha) as H2;
+    set (x := Bminus 53 1024 p q binop_nan_pl64 mode_NE a b) in *;
+    set (y := Bminus 53 1024 p q binop_nan_pl64 mode_NE b a) in *
+  end.
+  replace (B2R 53 1024 b - B2R 53 1024 a)%R with (- (B2R 53 1024 a - B2R 53 1024 b))%R in H2 by ring.
+  cbn [round_mode] in H1, H2.
+  rewrite round_NE_opp, Rabs_Ropp in H2.
+  destruct (Rlt_bool _ _).
+  - destruct H1 as [R1 [F1 _]]. destruct H2 as [R2 [F2 _]].
+    apply B2R_Bsign_inj.
+    + rewrite is_finite_Babs. exact F1.
+    + rewrite is_finite_Babs. exact F2.
+    + rewrite !B2R_Babs, R1, R2, Rabs_Ropp. reflexivity.
+    + rewrite !Bsign_Babs; [reflexivity| |].
+      * destruct y; try discriminate; reflexivity.
+      * destruct x; try discriminate; reflexivity.
+  - destruct H1 as [O1 _]. destruct H2 as [O2 _].
+    unfold binary_overflow in O1, O2. cbn in O1, O2.
+    destruct x; try discriminate; destruct y; try discriminate; reflexivity.
+Qed.
+
+Lemma nan_eqv_refl : forall x, nan_eqv x x.
+Proof. left; reflexivity. Qed.
+
+Lemma fabs_fsub_sym : forall a b, nan_eqv (fabs (fsub a b)) (fabs (fsub b a)).
+Proof.
+  intros a b.
+  destruct (f_is_finite a) eqn:Ha, (f_is_finite b) eqn:Hb.
+  - left. apply fabs_fsub_finite; assumption.
+  - destruct a as [sa|sa|sa pa Ea|sa ma ea Ea], b as [sb|sb|sb pb Eb|sb mb eb Eb]; try discriminate;
+      try (right; split; reflexivity); try (left; destruct sa, sb; reflexivity); left; destruct sb; reflexivity.
+  - destruct a as [sa|sa|sa pa Ea|sa ma ea Ea], b as [sb|sb|sb pb Eb|sb mb eb Eb]; try discriminate;
+      try (right; split; reflexivity); try (left; destruct sa, sb; reflexivity); left; destruct sa; reflexivity.
+  - destruct a as [sa|sa|sa pa Ea|sa ma ea Ea], b as [sb|sb|sb pb Eb|sb mb eb Eb]; try discriminate;
+      try (right; split; reflexivity); destruct sa, sb; try (right; split; reflexivity); left; reflexivity.
+Qed.
+
+Lemma fabs_nonneg_cmp_eq : forall x y, f_is_nan x = false -> f_is_nan y = false ->
+  fcmp (fabs x) (fabs y) = Some Eq -> fabs x = fabs y.
+Proof.
+  intros x y Hx Hy H.
+  destruct (f_is_finite x) eqn:Fx, (f_is_finite y) eqn:Fy.
+  - unfold fcmp, b64_compare, fabs, b64_abs, f_is_finite in *.
+    assert (F1 : is_finite 53 1024 (Babs 53 1024 unop_nan_pl64 x) = true) by (rewrite is_finite_Babs; exact Fx).
+    assert (F2 : is_finite 53 1024 (Babs 53 1024 unop_nan_pl64 y) = true) by (rewrite is_finite_Babs; exact Fy).
+    rewrite (Bcompare_correct 53 1024 _ _ F1 F2) in H. inversion H as [H0].
+    apply Rcompare_Eq_inv in H0.
+    apply B2R_Bsign_inj; try assumption.
+    rewrite !Bsign_Babs; [reflexivity|exact Hy|exact Hx].
+  - destruct x as [sa|sa|sa pa Ea|sa ma ea Ea], y as [sb|sb|sb pb Eb|sb mb eb Eb]; try discriminate.
+  - destruct x as [sa|sa|sa pa Ea|sa ma ea Ea], y as [sb|sb|sb pb Eb|sb mb eb Eb]; try discriminate.
+  - destruct x as [sa|sa|sa pa Ea|sa ma ea Ea], y as [sb|sb|sb pb Eb|sb mb eb Eb]; try discriminate. reflexivity.
+Qed.
+
+Lemma is_nan_fabs : forall x, f_is_nan (fabs x) = f_is_nan x.
+Proof. destruct x; reflexivity. Qed.
+
+Lemma fmax_fabs_sym : forall a b, nan_eqv (fmax (fabs a) (fabs b)) (fmax (fabs b) (fabs a)).
+Proof.
+  intros a b. unfold fmax. rewrite !is_nan_fabs.
+  destruct (f_is_nan a) eqn:Na, (f_is_nan b) eqn:Nb.
+  - right. rewrite !is_nan_fabs. auto.
+  - left. reflexivity.
+  - left. reflexivity.
+  - unfold flt. pose proof (fabs_nonneg_cmp_eq a b Na Nb) as HE.
+    assert (SW : fcmp (fabs b) (fabs a) = match fcmp (fabs a) (fabs b) with Some c => Some (CompOpp c) | None => None end)
+      by (unfold fcmp, b64_compare; apply Bcompare_swap).
+    rewrite SW. destruct (fcmp (fabs a) (fabs b)) as [[| |]|]; cbn [CompOpp]; left; try reflexivity.
+    + apply HE. reflexivity.
+    + (* incomparable non-NaN values do not exist *)
+      exfalso. destruct a as [sa|sa|sa pa Ea|sa ma ea Ea], b as [sb|sb|sb pb Eb|sb mb eb Eb]; try discriminate;
+      unfold fcmp, b64_compare, fabs, b64_abs in SW; cbn in SW; discriminate.
+Qed.
+
+Lemma fdiv_nan_l : forall x y, f_is_nan x = true -> f_is_nan (fdiv x y) = true.
+Proof. intros x y H. destruct x; try discriminate. destruct y; reflexivity. Qed.
+Lemma fdiv_nan_r : forall x y, f_is_nan y = true -> f_is_nan (fdiv x y) = true.
+Proof. intros x y H. destruct y; try discriminate. destruct x; reflexivity. Qed.
+
+Lemma fdiv_eqv : forall x x' y y', nan_eqv x x' -> nan_eqv y y' -> nan_eqv (fdiv x y) (fdiv x' y').
+Proof.
+  intros x x' y y' [->|[Hx Hx']] [->|[Hy Hy']].
+  - left; reflexivity.
+  - right. split; apply fdiv_nan_r; assumption.
+  - right. split; apply fdiv_nan_l; assumption.
+  - right. split; apply fdiv_nan_l; assumption.
+Qed.
+
+Lemma fle_nan_l : forall x e, f_is_nan x = true -> fle x e = false.
+Proof. intros x e H. destruct x; try discriminate. reflexivity. Qed.
+
+Lemma fle_eqv : forall x x' e, nan_eqv x x' -> fle x e = fle x' e.
+Proof. intros x x' e [->|[H H']]; [reflexivity|]. rewrite !fle_nan_l; auto. Qed.
+
+(* Number::eq is symmetric: every pair of doubles (NaN, infinities, zeros, subnormals included) *)
+Theorem number_eq_sym : forall a b, number_eq a b = number_eq b a.
+Proof.
+  intros a b. unfold number_eq. apply fle_eqv. apply fdiv_eqv; [apply fabs_fsub_sym|apply fmax_fabs_sym].
+Qed.
 
 (* ---- induction principle for the nested type ---- *)
 Section ValueInd.
@@ -14,7 +123,7 @@ Section ValueInd.
   Hypothesis HNum : forall n c, P (VNum n c).
   Hypothesis HStr : forall s q, P (VStr s q).
   Hypothesis HList : forall xs s b, Forall P xs -> P (VList xs s b).
-  Hypothesis HMap : forall ks vs, Forall P ks -> Forall P vs -> P (VMap ks vs).
+  Hypothesis HMap : forall kvs, Forall (fun kv => P (fst kv) /\ P (snd kv)) kvs -> P (VMap kvs).
   Hypothesis HOther : P VOther.
   Fixpoint value_ind' (v : value) : P v :=
     match v with
@@ -24,17 +133,26 @@ Section ValueInd.
     | VList xs s b =>
         HList xs s b ((fix go (l : list value) : Forall P l :=
                          match l with [] => Forall_nil P | x :: r => Forall_cons x (value_ind' x) (go r) end) xs)
-    | VMap ks vs =>
-        HMap ks vs
-          ((fix go (l : list value) : Forall P l :=
-              match l with [] => Forall_nil P | x :: r => Forall_cons x (value_ind' x) (go r) end) ks)
-          ((fix go (l : list value) : Forall P l :=
-              match l with [] => Forall_nil P | x :: r => Forall_cons x (value_ind' x) (go r) end) vs)
+    | VMap kvs =>
+        HMap kvs
+          ((fix go (l : list (value * value)) : Forall (fun kv => P (fst kv) /\ P (snd kv)) l :=
+              match l with
+              | [] => Forall_nil _
+              | (k, v) :: r => Forall_cons (k, v) (conj (value_ind' k) (value_ind' v)) (go r)
+              end) kvs)
     | VOther => HOther
     end.
 End ValueInd.
 
-(* ---- veq through all2 ---- *)
+(* ---- veq through named list functions ---- *)
+Fixpoint map_get (k v : value) (lb : list (value * value)) : bool :=
+  match lb with
+  | (k', v') :: rb => if veq k k' then veq v v' else map_get k v rb
+  | [] => false
+  end.
+Definition map_all (l lb : list (value * value)) : bool :=
+  forallb (fun kv => map_get (fst kv) (snd kv) lb) l.
+
 Lemma go_all2 : forall xs ys,
   (fix go (xs ys : list value) : bool :=
      match xs, ys with
@@ -47,9 +165,21 @@ Proof. induction xs; destruct ys; cbn [all2]; reflexivity. Qed.
 Lemma veq_list : forall xs s b ys s' b',
   veq (VList xs s b) (VList ys s' b') = all2 value veq xs ys && (s =? s') && Bool.eqb b b'.
 Proof. intros. cbn [veq]. rewrite go_all2. reflexivity. Qed.
-Lemma veq_map : forall ks vs ks' vs',
-  veq (VMap ks vs) (VMap ks' vs') = all2 value veq ks ks' && all2 value veq vs vs'.
-Proof. intros. cbn [veq]. rewrite !go_all2. reflexivity. Qed.
+
+Lemma map_get_fix : forall k v l',
+  (fix get (lb : list (value * value)) : bool :=
+     match lb with
+     | (k', v') :: rb => if veq k k' then veq v v' else get rb
+     | [] => false
+     end) l' = map_get k v l'.
+Proof. induction l' as [|[k' v'] r' IH']; [reflexivity|]. cbn [map_get]. rewrite <- IH'. reflexivity. Qed.
+
+Lemma veq_map : forall l l',
+  veq (VMap l) (VMap l') = Nat.eqb (length l) (length l') && map_all l l'.
+Proof.
+  intros l l'. cbn [veq]. apply f_equal. unfold map_all.
+  induction l as [|[k v] r IH]; [reflexivity|]. cbn [forallb fst snd]. rewrite <- IH, <- map_get_fix. reflexivity.
+Qed.
 
 (* ---- `!=` ---- *)
 Lemma neq_is_negation : forall a b, vneq a b = negb (veq a b).
@@ -102,99 +232,15 @@ Proof.
   rewrite (number_cmp_refl _ H). reflexivity.
 Qed.
 
-(* ---- reflexivity ---- *)
-Lemma all2_refl : forall xs, Forall (fun v => veq v v = true) xs -> all2 value veq xs xs = true.
-Proof. induction 1; cbn [all2]; [reflexivity|]. rewrite H, IHForall. reflexivity. Qed.
+(* ---- Numeric equality is symmetric for aligned units ---- *)
+Definition aligned (x y : numeric) : bool :=
+  us_eqb (nunit x) (nunit y) || num_is_no_unit x || num_is_no_unit y.
 
-Lemma forallb_app_true {A} (f : A -> bool) l1 l2 :
-  forallb f (l1 ++ l2) = true -> forallb f l1 = true /\ forallb f l2 = true.
-Proof. rewrite forallb_app. intros H. apply andb_true_iff in H. exact H. Qed.
-
-Lemma nan_free_flat : forall xs,
-  forallb (fun n => negb (f_is_nan (nval n))) (flat_map numbers_of xs) = true ->
-  Forall (fun v => nan_free v = true) xs.
+Lemma numeric_eq_sym_same_unit : forall a b, us_eqb (nunit a) (nunit b) = true -> num_eqb a b = num_eqb b a.
 Proof.
-  induction xs; intros H; [constructor|]. cbn [flat_map] in H.
-  apply forallb_app_true in H. destruct H as [H1 H2]. constructor; [exact H1|apply IHxs; exact H2].
-Qed.
-Lemma no_other_list : forall xs, existsb has_other xs = false -> Forall (fun v => has_other v = false) xs.
-Proof.
-  induction xs; intros H; [constructor|]. cbn [existsb] in H. apply orb_false_iff in H.
-  destruct H. constructor; auto.
-Qed.
-
-Lemma Forall_impl3 : forall (P Q R S : value -> Prop) xs,
-  Forall (fun v => P v -> Q v -> R v) xs -> Forall P xs -> Forall Q xs -> Forall R xs.
-Proof.
-  induction xs; intros H1 H2 H3; [constructor|].
-  inversion H1; inversion H2; inversion H3; subst. constructor; auto.
-Qed.
-
-Lemma veq_refl : forall v, has_other v = false -> nan_free v = true -> veq v v = true.
-Proof.
-  induction v using value_ind'; intros Ho Hn; try reflexivity.
-  - cbn [veq]. apply num_eqb_refl. unfold nan_free in Hn. cbn in Hn.
-    rewrite andb_true_r in Hn. apply negb_true_iff in Hn. exact Hn.
-  - cbn [veq]. clear. induction s; [reflexivity|]. cbn [bytes_eqb]. rewrite N.eqb_refl. exact IHs.
-  - rewrite veq_list, Z.eqb_refl, eqb_reflx, !andb_true_r.
-    apply all2_refl. cbn [has_other] in Ho. unfold nan_free in Hn. cbn [numbers_of] in Hn.
-    apply (Forall_impl3 _ _ _ (fun _ => True) xs H (no_other_list _ Ho) (nan_free_flat _ Hn)).
-  - rewrite veq_map. cbn [has_other] in Ho. apply orb_false_iff in Ho. destruct Ho as [Ho1 Ho2].
-    unfold nan_free in Hn. cbn [numbers_of] in Hn. apply forallb_app_true in Hn. destruct Hn as [Hn1 Hn2].
-    rewrite (all2_refl ks), (all2_refl vs); [reflexivity| |].
-    + apply (Forall_impl3 _ _ _ (fun _ => True) vs H0 (no_other_list _ Ho2) (nan_free_flat _ Hn2)).
-    + apply (Forall_impl3 _ _ _ (fun _ => True) ks H (no_other_list _ Ho1) (nan_free_flat _ Hn1)).
-  - discriminate.
-Qed.
-
-(* ---- symmetry ---- *)
-Definition pairs_sym (a b : value) : Prop :=
-  forall x y, In x (numbers_of a) -> In y (numbers_of b) -> num_eqb x y = num_eqb y x.
-
-Lemma booleqb_sym : forall x y : bool, Bool.eqb x y = Bool.eqb y x.
-Proof. destruct x, y; reflexivity. Qed.
-Lemma bytes_eqb_sym : forall s t, bytes_eqb s t = bytes_eqb t s.
-Proof. induction s; destruct t; try reflexivity. cbn [bytes_eqb]. rewrite N.eqb_sym, IHs. reflexivity. Qed.
-
-Lemma all2_sym : forall xs ys,
-  Forall (fun x => forall y, (forall n m, In n (numbers_of x) -> In m (numbers_of y) -> num_eqb n m = num_eqb m n) ->
-                             veq x y = veq y x) xs ->
-  (forall n m, In n (flat_map numbers_of xs) -> In m (flat_map numbers_of ys) -> num_eqb n m = num_eqb m n) ->
-  all2 value veq xs ys = all2 value veq ys xs.
-Proof.
-  induction xs; intros ys HF HP; destruct ys; try reflexivity.
-  inversion HF; subst. cbn [all2]. rewrite (H1 v).
-  - rewrite IHxs; [reflexivity|assumption|].
-    intros n m Hn Hm. apply HP; cbn [flat_map]; apply in_or_app; right; assumption.
-  - intros n m Hn Hm. apply HP; cbn [flat_map]; apply in_or_app; left; assumption.
-Qed.
-
-Lemma veq_sym : forall a b, pairs_sym a b -> veq a b = veq b a.
-Proof.
-  unfold pairs_sym.
-  induction a using value_ind'; intros vb HP;
-    destruct vb as [| | |m cm|t qt|ys s' b'|ks' vs'|]; try reflexivity.
-  - cbn [veq]. apply HP; cbn; auto.
-  - cbn [veq]. apply bytes_eqb_sym.
-  - rewrite !veq_list. rewrite (Z.eqb_sym s), (booleqb_sym b). f_equal. f_equal.
-    apply all2_sym; [exact H|]. intros n0 m0 Hn Hm. apply HP; cbn [numbers_of]; assumption.
-  - cbn [veq]. destruct xs, ks'; reflexivity.
-  - cbn [veq]. destruct ks, ys; reflexivity.
-  - rewrite !veq_map. f_equal.
-    + apply all2_sym; [exact H|]. intros n0 m0 Hn Hm.
-      apply HP; cbn [numbers_of]; apply in_or_app; left; assumption.
-    + apply all2_sym; [exact H0|]. intros n0 m0 Hn Hm.
-      apply HP; cbn [numbers_of]; apply in_or_app; right; assumption.
-Qed.
-
-(* where the asymmetry of numbers can come from: same unit set -> only Number::eq;
-   exactly one unitless -> never equal in either direction *)
-Lemma numeric_eq_sym_same_unit : forall a b, us_eqb (nunit a) (nunit b) = true ->
-  number_eq (nval a) (nval b) = number_eq (nval b) (nval a) -> num_eqb a b = num_eqb b a.
-Proof.
-  intros a b Hu Hn. unfold num_eqb, numeric_eq, numeric_cmp.
-  rewrite (us_eqb_sym (nunit b)), Hu. unfold number_cmp. rewrite Hn.
-  destruct (number_eq (nval b) (nval a)); [reflexivity|].
+  intros a b Hu. unfold num_eqb, numeric_eq, numeric_cmp.
+  rewrite (us_eqb_sym (nunit b)), Hu. unfold number_cmp. rewrite (number_eq_sym (nval b) (nval a)).
+  destruct (number_eq (nval a) (nval b)); [reflexivity|].
   pose proof (fcmp_eq_sym_iff (nval a) (nval b)) as E.
   destruct (fcmp (nval a) (nval b)) as [[| |]|], (fcmp (nval b) (nval a)) as [[| |]|]; try reflexivity; discriminate.
 Qed.
@@ -205,10 +251,178 @@ Proof.
   rewrite (us_eqb_sym (nunit b)), Hu, (orb_comm (num_is_no_unit b)), Hn.
   split; [destruct (number_cmp (nval a) (nval b)) as [[| |]|]|destruct (number_cmp (nval b) (nval a)) as [[| |]|]]; reflexivity.
 Qed.
+Lemma num_eqb_sym_aligned : forall a b, aligned a b = true -> num_eqb a b = num_eqb b a.
+Proof.
+  intros a b H. unfold aligned in H. destruct (us_eqb (nunit a) (nunit b)) eqn:E.
+  - apply numeric_eq_sym_same_unit. exact E.
+  - cbn [orb] in H. destruct (numeric_eq_unitless_vs_unit a b E H) as [-> ->]. reflexivity.
+Qed.
+
+(* ---- reflexivity ---- *)
+Lemma all2_refl : forall xs, Forall (fun v => veq v v = true) xs -> all2 value veq xs xs = true.
+Proof. induction 1; cbn [all2]; [reflexivity|]. rewrite H, IHForall. reflexivity. Qed.
+
+(* maps: keys pairwise unequal (what OrderMap::insert maintains), recursively *)
+Fixpoint keys_nodup (l : list (value * value)) : bool :=
+  match l with
+  | [] => true
+  | (k, _) :: r => forallb (fun kv => negb (veq k (fst kv)) && negb (veq (fst kv) k)) r && keys_nodup r
+  end.
+Fixpoint maps_nodup (v : value) : bool :=
+  match v with
+  | VList xs _ _ => forallb maps_nodup xs
+  | VMap kvs => keys_nodup kvs && forallb (fun kv => maps_nodup (fst kv) && maps_nodup (snd kv)) kvs
+  | _ => true
+  end.
+
+Lemma map_get_skip : forall k v pre post,
+  (forall kv', In kv' pre -> veq k (fst kv') = false) -> map_get k v (pre ++ post) = map_get k v post.
+Proof.
+  induction pre as [|[k' v'] pre IH]; intros post H; [reflexivity|].
+  cbn [app map_get]. pose proof (H (k', v') (or_introl eq_refl)) as E. cbn [fst] in E. rewrite E. apply IH.
+  intros kv' Hin. apply H. right. exact Hin.
+Qed.
+
+Lemma map_all_refl_gen : forall l pre,
+  (forall kv' kv, In kv' pre -> In kv l -> veq (fst kv) (fst kv') = false) ->
+  keys_nodup l = true ->
+  (forall kv, In kv l -> veq (fst kv) (fst kv) = true /\ veq (snd kv) (snd kv) = true) ->
+  forallb (fun kv => map_get (fst kv) (snd kv) (pre ++ l)) l = true.
+Proof.
+  induction l as [|[k v] r IH]; intros pre Hpre Hnd Hrefl; [reflexivity|].
+  cbn [forallb fst snd]. cbn [keys_nodup] in Hnd. apply andb_true_iff in Hnd. destruct Hnd as [Hk Hr].
+  destruct (Hrefl (k, v) (or_introl eq_refl)) as [Rk Rv]. cbn [fst snd] in Rk, Rv.
+  apply andb_true_iff. split.
+  - rewrite map_get_skip.
+    + cbn [map_get]. rewrite Rk. exact Rv.
+    + intros kv' Hin. apply (Hpre kv' (k, v) Hin (or_introl eq_refl)).
+  - replace (pre ++ (k, v) :: r)%list with ((pre ++ [(k, v)]) ++ r)%list by (rewrite <- app_assoc; reflexivity).
+    apply IH; [|exact Hr|intros kv Hin; apply Hrefl; right; exact Hin].
+    intros kv' kv Hin' Hin. apply in_app_or in Hin'. destruct Hin' as [Hin'|[<-|[]]].
+    + apply (Hpre kv' kv Hin'). right. exact Hin.
+    + cbn [fst]. rewrite forallb_forall in Hk. specialize (Hk kv Hin).
+      apply andb_true_iff in Hk. destruct Hk as [_ Hk]. apply negb_true_iff in Hk. exact Hk.
+Qed.
+
+Lemma forallb_app_true {A} (f : A -> bool) l1 l2 :
+  forallb f (l1 ++ l2) = true -> forallb f l1 = true /\ forallb f l2 = true.
+Proof. rewrite forallb_app. intros H. apply andb_true_iff in H. exact H. Qed.
+
+Lemma veq_refl : forall v, has_other v = false -> nan_free v = true -> maps_nodup v = true -> veq v v = true.
+Proof.
+  induction v using value_ind'; intros Ho Hn Hm; try reflexivity.
+  - cbn [veq]. apply num_eqb_refl. unfold nan_free in Hn. cbn in Hn.
+    rewrite andb_true_r in Hn. apply negb_true_iff in Hn. exact Hn.
+  - cbn [veq]. clear. induction s; [reflexivity|]. cbn [bytes_eqb]. rewrite N.eqb_refl. exact IHs.
+  - rewrite veq_list, Z.eqb_refl, eqb_reflx, !andb_true_r.
+    apply all2_refl. cbn [has_other] in Ho. unfold nan_free in Hn. cbn [numbers_of] in Hn. cbn [maps_nodup] in Hm.
+    revert Ho Hn Hm. induction H as [|x xs Hx HF IH]; intros Ho Hn Hm; [constructor|].
+    cbn [existsb] in Ho. apply orb_false_iff in Ho. destruct Ho as [Ho1 Ho2].
+    cbn [flat_map] in Hn. apply forallb_app_true in Hn. destruct Hn as [Hn1 Hn2].
+    cbn [forallb] in Hm. apply andb_true_iff in Hm. destruct Hm as [Hm1 Hm2].
+    constructor; [apply Hx; assumption|apply IH; assumption].
+  - rewrite veq_map, Nat.eqb_refl. cbn [andb]. unfold map_all.
+    cbn [has_other] in Ho. unfold nan_free in Hn. cbn [numbers_of] in Hn. cbn [maps_nodup] in Hm.
+    apply andb_true_iff in Hm. destruct Hm as [Hnd Hm].
+    apply (map_all_refl_gen kvs [] (fun _ _ F => match F with end) Hnd).
+    revert Ho Hn Hm. clear Hnd. induction H as [|[k v] r [Hk Hv] HF IH]; intros Ho Hn Hm kv Hin; [destruct Hin|].
+    cbn [existsb fst snd] in Ho. apply orb_false_iff in Ho. destruct Ho as [Ho1 Ho2].
+    apply orb_false_iff in Ho1. destruct Ho1 as [Hok Hov].
+    cbn [flat_map fst snd] in Hn. apply forallb_app_true in Hn. destruct Hn as [Hn1 Hn2].
+    apply forallb_app_true in Hn1. destruct Hn1 as [Hnk Hnv].
+    cbn [forallb fst snd] in Hm. apply andb_true_iff in Hm. destruct Hm as [Hm1 Hm2].
+    apply andb_true_iff in Hm1. destruct Hm1 as [Hmk Hmv].
+    destruct Hin as [<-|Hin].
+    + cbn [fst snd]. split; [apply Hk|apply Hv]; assumption.
+    + apply (IH Ho2 Hn2 Hm2 kv Hin).
+  - discriminate.
+Qed.
+
+(* ---- symmetry ---- *)
+Definition pairs_sym (a b : value) : Prop :=
+  forall x y, In x (numbers_of a) -> In y (numbers_of b) -> num_eqb x y = num_eqb y x.
+
+(* every map has at most one entry (then first-match lookup is a plain comparison) *)
+Fixpoint maps_le1 (v : value) : bool :=
+  match v with
+  | VList xs _ _ => forallb maps_le1 xs
+  | VMap [] => true
+  | VMap [(k, x)] => maps_le1 k && maps_le1 x
+  | VMap _ => false
+  | _ => true
+  end.
+
+Lemma booleqb_sym : forall x y : bool, Bool.eqb x y = Bool.eqb y x.
+Proof. destruct x, y; reflexivity. Qed.
+Lemma bytes_eqb_sym : forall s t, bytes_eqb s t = bytes_eqb t s.
+Proof. induction s; destruct t; try reflexivity. cbn [bytes_eqb]. rewrite N.eqb_sym, IHs. reflexivity. Qed.
+
+Definition sym_at (x : value) : Prop :=
+  forall y, maps_le1 x = true -> maps_le1 y = true ->
+            (forall n m, In n (numbers_of x) -> In m (numbers_of y) -> num_eqb n m = num_eqb m n) ->
+            veq x y = veq y x.
+
+Lemma all2_sym : forall xs ys, Forall sym_at xs ->
+  forallb maps_le1 xs = true -> forallb maps_le1 ys = true ->
+  (forall n m, In n (flat_map numbers_of xs) -> In m (flat_map numbers_of ys) -> num_eqb n m = num_eqb m n) ->
+  all2 value veq xs ys = all2 value veq ys xs.
+Proof.
+  induction xs; intros ys HF Hx Hy HP; destruct ys; try reflexivity.
+  inversion HF; subst. cbn [all2]. cbn [forallb] in Hx, Hy.
+  apply andb_true_iff in Hx. destruct Hx as [Hx1 Hx2]. apply andb_true_iff in Hy. destruct Hy as [Hy1 Hy2].
+  rewrite (H1 v Hx1 Hy1).
+  - rewrite IHxs; [reflexivity|assumption|assumption|assumption|].
+    intros n m Hn Hm. apply HP; cbn [flat_map]; apply in_or_app; right; assumption.
+  - intros n m Hn Hm. apply HP; cbn [flat_map]; apply in_or_app; left; assumption.
+Qed.
+
+Lemma veq_sym_general : forall a b, maps_le1 a = true -> maps_le1 b = true -> pairs_sym a b -> veq a b = veq b a.
+Proof.
+  unfold pairs_sym. intros a. change (sym_at a).
+  induction a using value_ind'; intros vb Ha Hb HP;
+    destruct vb as [| | |m cm|t qt|ys s' b'|kvs'|]; try reflexivity.
+  - cbn [veq]. apply HP; cbn; auto.
+  - cbn [veq]. apply bytes_eqb_sym.
+  - rewrite !veq_list. rewrite (Z.eqb_sym s), (booleqb_sym b). f_equal. f_equal.
+    apply all2_sym; [exact H|exact Ha|exact Hb|]. intros n0 m0 Hn Hm. apply HP; cbn [numbers_of]; assumption.
+  - cbn [veq]. destruct xs, kvs'; reflexivity.
+  - cbn [veq]. destruct kvs, ys; reflexivity.
+  - (* maps with at most one entry *)
+    destruct kvs as [|[k x] [|? ?]]; [| |discriminate]; destruct kvs' as [|[k' x'] [|? ?]]; try discriminate; try reflexivity.
+    inversion H as [|? ? [Hk Hx] _]; subst. cbn [fst snd] in Hk, Hx.
+    cbn [maps_le1] in Ha, Hb. apply andb_true_iff in Ha. destruct Ha as [Ha1 Ha2].
+    apply andb_true_iff in Hb. destruct Hb as [Hb1 Hb2].
+    rewrite !veq_map. cbn [length Nat.eqb andb map_all forallb fst snd map_get].
+    rewrite !andb_true_r.
+    assert (E1 : veq k k' = veq k' k).
+    { apply Hk; try assumption. intros n0 m0 Hn Hm. apply HP; cbn [numbers_of flat_map fst snd];
+        rewrite ?app_nil_r; apply in_or_app; left; assumption. }
+    assert (E2 : veq x x' = veq x' x).
+    { apply Hx; try assumption. intros n0 m0 Hn Hm. apply HP; cbn [numbers_of flat_map fst snd];
+        rewrite ?app_nil_r; apply in_or_app; right; assumption. }
+    rewrite E1, E2. reflexivity.
+Qed.
+
+Definition all_aligned (a b : value) : Prop :=
+  forall x y, In x (numbers_of a) -> In y (numbers_of b) -> aligned x y = true.
+
+Lemma veq_sym : forall a b, maps_le1 a = true -> maps_le1 b = true -> all_aligned a b -> veq a b = veq b a.
+Proof.
+  intros a b Ha Hb H. apply veq_sym_general; try assumption.
+  intros x y Hx Hy. apply num_eqb_sym_aligned. apply H; assumption.
+Qed.
 
 Definition one : numeric := mkNum (of_bits 4607182418800017408) [].
 Definition below_one : numeric := mkNum (of_bits 4607182418800017406) [].   (* 0.9999999999999998 *)
-Lemma refuted_sym : veq (VNum one true) (VNum below_one true) = true /\ veq (VNum below_one true) (VNum one true) = false.
+(* the former F17 witness now compares equal in both directions *)
+Lemma former_witness : veq (VNum one true) (VNum below_one true) = true /\ veq (VNum below_one true) (VNum one true) = true.
+Proof. vm_compute. split; reflexivity. Qed.
+
+(* F31: two different convertible units: 2.54turn == 914.3999999999997deg, but not the reverse *)
+Definition turn_254 : numeric := mkNum (of_bits 4612901990326777938) (us_of_unit (UK "Turn")).
+Definition deg_9144 : numeric := mkNum (of_bits 4651254363278488369) (us_of_unit (UK "Deg")).
+Lemma refuted_sym_two_units :
+  veq (VNum turn_254 true) (VNum deg_9144 true) = true /\ veq (VNum deg_9144 true) (VNum turn_254 true) = false.
 Proof. vm_compute. split; reflexivity. Qed.
 
 (* ---- trichotomy ---- *)
